@@ -1,2 +1,57 @@
+/* frame classification (C02), data extraction, management parsers (C04/C08), EAPOL (C12) */
 #include "h.h"
-const struct op ops_frame[] = { {NULL, NULL} };
+void print_rtinfo(const struct libwifi_radiotap_info *i);
+
+/* canonical libwifi_frame: header bytes are the first header_len bytes of the union */
+void print_frame(const struct libwifi_frame *f) {
+    printf("flags=%u fc=", f->flags);
+    out_hex((const unsigned char *) &f->frame_control, 2);
+    printf(" len=%zu hl=%zu hdr=", f->len, f->header_len);
+    out_hex((const unsigned char *) &f->header, f->header_len <= sizeof f->header ? f->header_len : sizeof f->header);
+    printf(" body=");
+    size_t bl = f->len - f->header_len;
+    if (bl > 0 && f->body) out_hex(f->body, bl); else printf("-");
+    if (bl > 0 && !f->body) printf(" NULLBODY");
+    if (bl == 0 && f->body) printf(" BODYPTR");
+    printf(" rt=[");
+    if (f->radiotap_info) print_rtinfo(f->radiotap_info); else printf("-");
+    printf("]");
+}
+
+/* classify <radiotap 0|1> <hex> */
+static void op_classify(int nt, char **t) {
+    (void) nt;
+    int rt = (int) tok_ll(t[1]);
+    size_t n; unsigned char *b = hexbuf(t[2], &n);
+    unsigned char *copy = __real_malloc(n); memcpy(copy, b, n);
+    struct libwifi_frame f; memset(&f, 0x5A, sizeof f);
+    int r;
+    LIB(r = libwifi_get_wifi_frame(&f, b, n, rt));
+    int modified = memcmp(copy, b, n) != 0;
+    /* a classified frame owns its data: wipe and release the input before looking at the result */
+    memset(b, 0xEE, n); __real_free(b); __real_free(copy);
+    if (r != 0) {
+        printf("classify err");
+    } else {
+        printf("classify ok ");
+        print_frame(&f);
+        struct libwifi_data d; memset(&d, 0, sizeof d);
+        int dr;
+        LIB(dr = libwifi_parse_data(&d, &f));
+        if (dr != 0) printf(" data=err");
+        else {
+            printf(" data=");
+            out_hex(d.receiver, 6); putchar(','); out_hex(d.transmitter, 6); printf(",%zu,", d.body_len);
+            if (d.body_len) out_hex(d.body, d.body_len); else putchar('-');
+            LIB(libwifi_free_data(&d));
+        }
+    }
+    if (modified) printf(" INPUT-MODIFIED");
+    LIB(libwifi_free_wifi_frame(&f));
+    if (ledger_live()) printf(" LEAK(%d)", ledger_live());
+}
+
+const struct op ops_frame[] = {
+    {"classify", op_classify},
+    {NULL, NULL},
+};
